@@ -134,3 +134,547 @@ Proof.
   replace (e_shoff (ref_ehdr f) + 40 * 0) with (e_shoff (ref_ehdr f)) in H by lia.
   eexists. rewrite H. f_equal.
 Qed.
+
+(* ------------------------------------------------------------------ DRAM writes of the loader *)
+Lemma bset_dram_twice d1 d2 b : bset_dram d2 (bset_dram d1 b) = bset_dram d2 b.
+Proof. reflexivity. Qed.
+Lemma b_dram_bset d b : b_dram (bset_dram d b) = d.
+Proof. reflexivity. Qed.
+
+Lemma dram_copy_spec : forall bs b i, 0 <= i -> i + Z.of_nat (length bs) <= DRAM_SIZE ->
+  exists d', dram_copy b i bs = Some (bset_dram d' b) /\
+    forall j, 0 <= j -> sget d' j = if (i <=? j) && (j <? i + Z.of_nat (length bs)) then nth (Z.to_nat (j - i)) bs 0 else sget (b_dram b) j.
+Proof.
+  induction bs as [|v t IH]; intros b i H0 H1.
+  - exists (b_dram b). split; [destruct b; reflexivity|]. intros j Hj. cbn [length].
+    destruct (i <=? j) eqn:E1; destruct (j <? i + Z.of_nat 0) eqn:E2; try reflexivity. lia.
+  - cbn [length] in H1. cbn [dram_copy]. unfold dram_put.
+    replace ((0 <=? i) && (i <? DRAM_SIZE)) with true by (symmetry; apply andb_true_iff; split; lia).
+    destruct (IH (bset_dram (sset (b_dram b) i v) b) (i + 1)) as [d' [Hc Hd]]; [lia|lia|].
+    exists d'. split; [rewrite Hc; reflexivity|].
+    intros j Hj. rewrite Hd by lia. rewrite b_dram_bset. cbn [length].
+    destruct (Z.eq_dec j i) as [->|Hne].
+    + replace ((i + 1 <=? i) && (i <? i + 1 + Z.of_nat (length t))) with false by (symmetry; apply andb_false_iff; left; lia).
+      rewrite sget_sset by lia. rewrite Z.eqb_refl.
+      replace ((i <=? i) && (i <? i + Z.of_nat (S (length t)))) with true by (symmetry; apply andb_true_iff; split; lia).
+      replace (i - i) with 0 by lia. reflexivity.
+    + rewrite sget_sset by lia. replace (i =? j) with false by lia.
+      destruct (i + 1 <=? j) eqn:E1; destruct (j <? i + 1 + Z.of_nat (length t)) eqn:E2; cbn [andb];
+        destruct (i <=? j) eqn:E3; destruct (j <? i + Z.of_nat (S (length t))) eqn:E4; cbn [andb]; try lia; try reflexivity.
+      replace (Z.to_nat (j - i)) with (S (Z.to_nat (j - (i + 1)))) by lia. reflexivity.
+Qed.
+
+Lemma dram_copy_none_effect bs b i b' : dram_copy b i bs = Some b' -> exists d', b' = bset_dram d' b.
+Proof.
+  revert b i. induction bs as [|v t IH]; intros b i H.
+  - cbn in H. injection H as <-. exists (b_dram b). destruct b; reflexivity.
+  - cbn [dram_copy] in H. unfold dram_put in H. destruct ((0 <=? i) && (i <? DRAM_SIZE)); [|discriminate].
+    destruct (IH _ _ H) as [d' ->]. exists d'. reflexivity.
+Qed.
+
+(* bytes of the file *)
+Lemma nth_firstn_lt {A} (d : A) : forall (l : list A) n k, (k < n)%nat -> nth k (firstn n l) d = nth k l d.
+Proof.
+  induction l as [|x l IH]; intros n k H; [now rewrite firstn_nil|].
+  destruct n as [|n]; [lia|]. destruct k as [|k]; [reflexivity|]. cbn [firstn nth]. apply IH. lia.
+Qed.
+Lemma nth_skipn_add {A} (d : A) : forall (l : list A) m k, nth k (skipn m l) d = nth (m + k) l d.
+Proof.
+  induction l as [|x l IH]; intros m k; [rewrite skipn_nil; now destruct k, m|].
+  destruct m as [|m]; [reflexivity|]. cbn [skipn plus nth]. apply IH.
+Qed.
+Lemma nth_firstn_skz f off n k : 0 <= off -> 0 <= k < n -> off + n <= flen f ->
+  nth (Z.to_nat k) (firstn (Z.to_nat n) (skz f off)) 0 = at8 f (off + k).
+Proof.
+  intros H0 Hk Hn. unfold skz, at8.
+  rewrite nth_firstn_lt by lia. rewrite nth_skipn_add. f_equal. lia.
+Qed.
+
+Lemma length_firstn_skz f off n : 0 <= off -> 0 <= n -> off + n <= flen f ->
+  Z.of_nat (length (firstn (Z.to_nat n) (skz f off))) = n.
+Proof.
+  intros H0 H1 H2. unfold skz, flen in *. rewrite firstn_length, skipn_length. lia.
+Qed.
+
+Lemma slice_from_ok f off : 0 <= off -> off <= flen f -> slice_from f off = Some (skz f off).
+Proof.
+  intros H0 H1. unfold slice_from. fold (flen f).
+  replace ((0 <=? off) && (off <=? flen f)) with true by (symmetry; apply andb_true_iff; split; lia). reflexivity.
+Qed.
+
+(* ------------------------------------------------------------------ C11: segments *)
+Definition seg_val (f : list Z) (l : list phdr) (d : Z -> Z) (i : Z) : Z :=
+  match find (fun ph => covers ph (i - OFF)) l with
+  | Some ph => at8 f (p_offset ph + ((i - OFF) - p_vaddr ph))
+  | None => d i
+  end.
+
+Definition seg_ok (f : list Z) (ph : phdr) : Prop :=
+  is_load ph = true ->
+  0 <= p_offset ph /\ 0 <= p_filesz ph /\ p_offset ph + p_filesz ph <= flen f /\ 0 <= p_vaddr ph /\ OFF + p_vaddr ph + p_filesz ph <= DRAM_SIZE.
+
+Lemma load_segment_spec f b ph : seg_ok f ph ->
+  exists d', load_segment f b ph = Some (bset_dram d' b) /\
+    forall j, 0 <= j -> sget d' j = if covers ph (j - OFF) then at8 f (p_offset ph + ((j - OFF) - p_vaddr ph)) else sget (b_dram b) j.
+Proof.
+  intros Hok. unfold load_segment, covers. unfold seg_ok, is_load in *.
+  destruct (p_type ph =? 1) eqn:Ety.
+  - destruct (Hok eq_refl) as (Ho & Hf & Hlen & Hv & Htop).
+    rewrite slice_from_ok by lia.
+    assert (Hl : Z.of_nat (length (skz f (p_offset ph))) = flen f - p_offset ph).
+    { unfold skz, flen. rewrite skipn_length. unfold flen in Hlen. lia. }
+    replace (p_filesz ph <=? Z.of_nat (length (skz f (p_offset ph)))) with true by lia.
+    assert (Hfl := length_firstn_skz f (p_offset ph) (p_filesz ph) Ho Hf Hlen).
+    destruct (dram_copy_spec (firstn (Z.to_nat (p_filesz ph)) (skz f (p_offset ph))) b (OFF + p_vaddr ph)) as [d' [Hc Hd]].
+    { unfold OFF, PROGRAM_START_ADDR, DRAM_START. lia. }
+    { rewrite Hfl. lia. }
+    exists d'. split; [exact Hc|]. intros j Hj. rewrite Hd by lia. rewrite Hfl. cbn [andb].
+    destruct (p_vaddr ph <=? j - OFF) eqn:E1; destruct (j - OFF <? p_vaddr ph + p_filesz ph) eqn:E2;
+      destruct (OFF + p_vaddr ph <=? j) eqn:E3; destruct (j <? OFF + p_vaddr ph + p_filesz ph) eqn:E4; cbn [andb]; try lia; try reflexivity.
+    replace (j - (OFF + p_vaddr ph)) with (j - OFF - p_vaddr ph) by lia.
+    apply nth_firstn_skz; lia.
+  - exists (b_dram b). split; [destruct b; reflexivity|]. intros j Hj. reflexivity.
+Qed.
+
+Lemma find_app {A} (p : A -> bool) l1 l2 : find p (l1 ++ l2) = match find p l1 with Some x => Some x | None => find p l2 end.
+Proof. induction l1 as [|x l1 IH]; [reflexivity|]. cbn [app find]. destruct (p x); [reflexivity|exact IH]. Qed.
+
+Lemma load_segments_spec f : forall phs b, Forall (seg_ok f) phs ->
+  exists d', load_segments f b phs = Some (bset_dram d' b) /\
+    forall j, 0 <= j -> sget d' j = seg_val f (rev phs) (sget (b_dram b)) j.
+Proof.
+  induction phs as [|ph t IH]; intros b Hall.
+  - exists (b_dram b). split; [destruct b; reflexivity|]. intros j Hj. reflexivity.
+  - inversion Hall as [|? ? Hph Ht]; subst.
+    destruct (load_segment_spec f b ph Hph) as [d1 [H1 Hd1]].
+    cbn [load_segments]. rewrite H1.
+    destruct (IH (bset_dram d1 b) Ht) as [d' [H2 Hd']].
+    exists d'. split; [rewrite H2; reflexivity|].
+    intros j Hj. rewrite Hd' by lia. unfold seg_val. cbn [rev]. rewrite find_app. rewrite b_dram_bset.
+    destruct (find (fun ph0 => covers ph0 (j - OFF)) (rev t)); [reflexivity|].
+    cbn [find]. rewrite Hd1 by lia. destruct (covers ph (j - OFF)); reflexivity.
+Qed.
+
+(* ------------------------------------------------------------------ C11: GOT relocation *)
+Definition wordz (d : Z -> Z) (e : Z) : Z := d e * 16777216 + d (e + 1) * 65536 + d (e + 2) * 256 + d (e + 3).
+
+Lemma put_be32_spec b i v : 0 <= i -> i + 4 <= DRAM_SIZE ->
+  exists d', put_be32 b i v = Some (bset_dram d' b) /\
+    forall j, 0 <= j -> sget d' j = if (i <=? j) && (j <? i + 4) then byte_of v (j - i) else sget (b_dram b) j.
+Proof.
+  intros H0 H1. unfold put_be32.
+  destruct (dram_copy_spec [(v / 16777216) mod 256; (v / 65536) mod 256; (v / 256) mod 256; v mod 256] b i H0) as [d' [Hc Hd]].
+  { cbn [length]. lia. }
+  exists d'. split; [exact Hc|]. intros j Hj. rewrite Hd by lia. cbn [length].
+  change (Z.of_nat 4) with 4.
+  destruct ((i <=? j) && (j <? i + 4)) eqn:E; [|reflexivity].
+  apply andb_true_iff in E. destruct E as [E1 E2].
+  assert (Hc4 : j - i = 0 \/ j - i = 1 \/ j - i = 2 \/ j - i = 3) by lia.
+  destruct Hc4 as [-> | [-> | [-> | ->]]]; try reflexivity.
+  cbn [Z.to_nat Pos.to_nat Pos.iter_op Init.Nat.add nth]. unfold byte_of. cbn [Z.sub Z.pow Z.opp Z.pos_sub Z.add Z.pow_pos Pos.iter Z.mul Pos.mul].
+  rewrite Z.div_1_r. reflexivity.
+Qed.
+
+Lemma relocate_got_spec : forall n b i, 0 <= i -> i + 4 * Z.of_nat n <= DRAM_SIZE ->
+  exists d', relocate_got b i n = Some (bset_dram d' b) /\
+    forall j, 0 <= j -> sget d' j =
+      if (i <=? j) && (j <? i + 4 * Z.of_nat n)
+      then byte_of ((wordz (sget (b_dram b)) (i + 4 * ((j - i) / 4)) + BASE) mod 4294967296) ((j - i) mod 4)
+      else sget (b_dram b) j.
+Proof.
+  induction n as [|n IH]; intros b i H0 H1.
+  - exists (b_dram b). split; [destruct b; reflexivity|]. intros j Hj.
+    replace ((i <=? j) && (j <? i + 4 * Z.of_nat 0)) with false by (symmetry; apply andb_false_iff; lia). reflexivity.
+  - cbn [relocate_got]. unfold dram_get.
+    replace ((0 <=? i) && (i <? DRAM_SIZE)) with true by (symmetry; apply andb_true_iff; split; lia).
+    replace ((0 <=? i + 1) && (i + 1 <? DRAM_SIZE)) with true by (symmetry; apply andb_true_iff; split; lia).
+    replace ((0 <=? i + 2) && (i + 2 <? DRAM_SIZE)) with true by (symmetry; apply andb_true_iff; split; lia).
+    replace ((0 <=? i + 3) && (i + 3 <? DRAM_SIZE)) with true by (symmetry; apply andb_true_iff; split; lia).
+    fold (wordz (sget (b_dram b)) i).
+    destruct (put_be32_spec b i ((wordz (sget (b_dram b)) i + PROGRAM_START_ADDR) mod 4294967296)) as [d1 [Hp Hd1]]; [lia|lia|].
+    rewrite Hp.
+    destruct (IH (bset_dram d1 b) (i + 4)) as [d' [Hr Hd']]; [lia|lia|].
+    exists d'. split; [rewrite Hr; reflexivity|].
+    intros j Hj. rewrite Hd' by lia. rewrite b_dram_bset.
+    destruct ((i + 4 <=? j) && (j <? i + 4 + 4 * Z.of_nat n)) eqn:E.
+    + apply andb_true_iff in E. destruct E as [E1 E2].
+      replace ((i <=? j) && (j <? i + 4 * Z.of_nat (S n))) with true by (symmetry; apply andb_true_iff; split; lia).
+      replace (i + 4 + 4 * ((j - (i + 4)) / 4)) with (i + 4 * ((j - i) / 4)) by lia.
+      replace ((j - (i + 4)) mod 4) with ((j - i) mod 4) by lia.
+      assert (He : i + 4 <= i + 4 * ((j - i) / 4)) by lia.
+      unfold wordz. rewrite !Hd1 by lia.
+      set (e := i + 4 * ((j - i) / 4)) in *.
+      replace ((i <=? e) && (e <? i + 4)) with false by (symmetry; apply andb_false_iff; lia).
+      replace ((i <=? e + 1) && (e + 1 <? i + 4)) with false by (symmetry; apply andb_false_iff; lia).
+      replace ((i <=? e + 2) && (e + 2 <? i + 4)) with false by (symmetry; apply andb_false_iff; lia).
+      replace ((i <=? e + 3) && (e + 3 <? i + 4)) with false by (symmetry; apply andb_false_iff; lia).
+      reflexivity.
+    + rewrite Hd1 by lia.
+      destruct ((i <=? j) && (j <? i + 4)) eqn:E2.
+      * apply andb_true_iff in E2. destruct E2 as [E3 E4].
+        replace ((i <=? j) && (j <? i + 4 * Z.of_nat (S n))) with true by (symmetry; apply andb_true_iff; split; lia).
+        replace ((j - i) / 4) with 0 by lia. replace ((j - i) mod 4) with (j - i) by lia.
+        replace (i + 4 * 0) with i by lia. reflexivity.
+      * replace ((i <=? j) && (j <? i + 4 * Z.of_nat (S n))) with false; [reflexivity|].
+        symmetry. apply andb_false_iff. apply andb_false_iff in E. apply andb_false_iff in E2. lia.
+Qed.
+
+(* ------------------------------------------------------------------ C12: the argument block *)
+Fixpoint strs_len (ws : list (list Z)) : Z :=
+  match ws with [] => 0 | w :: t => Z.of_nat (length w) + 1 + strs_len t end.
+Definition strs (ws : list (list Z)) : list Z := flat_map (fun w => w ++ [0]) ws.
+Definition ptrs (a : Z) (ws : list (list Z)) : list Z := flat_map be32_bytes (str_addrs a ws).
+
+Lemma strs_len_nonneg ws : 0 <= strs_len ws.
+Proof. induction ws as [|w t IH]; cbn [strs_len]; lia. Qed.
+Lemma length_strs ws : Z.of_nat (length (strs ws)) = strs_len ws.
+Proof.
+  induction ws as [|w t IH]; [reflexivity|]. unfold strs in *. cbn [flat_map strs_len].
+  rewrite !app_length. cbn [length]. lia.
+Qed.
+Lemma length_ptrs ws : forall a, Z.of_nat (length (ptrs a ws)) = 4 * Z.of_nat (length ws).
+Proof.
+  induction ws as [|w t IH]; intros a; [reflexivity|]. unfold ptrs in *. cbn [str_addrs flat_map].
+  rewrite app_length. cbn [length be32_bytes]. rewrite Nat2Z.inj_add. rewrite IH. lia.
+Qed.
+
+Lemma nth_app_l {A} (d : A) l1 l2 k : 0 <= k < Z.of_nat (length l1) -> nth (Z.to_nat k) (l1 ++ l2) d = nth (Z.to_nat k) l1 d.
+Proof. intros H. apply app_nth1. lia. Qed.
+Lemma nth_app_r {A} (d : A) l1 l2 k : Z.of_nat (length l1) <= k -> nth (Z.to_nat k) (l1 ++ l2) d = nth (Z.to_nat (k - Z.of_nat (length l1))) l2 d.
+Proof. intros H. rewrite app_nth2 by lia. f_equal. lia. Qed.
+
+Lemma nth_be32_bytes v k : 0 <= k < 4 -> nth (Z.to_nat k) (be32_bytes v) 0 = byte_of v k.
+Proof.
+  intros H. assert (Hc : k = 0 \/ k = 1 \/ k = 2 \/ k = 3) by lia. destruct Hc as [-> | [-> | [-> | ->]]]; reflexivity.
+Qed.
+
+Lemma put_args_spec : forall ws b argp a,
+  DRAM_START <= argp -> argp + 4 * Z.of_nat (length ws) <= a -> a + strs_len ws <= DRAM_START + DRAM_SIZE ->
+  exists d', put_args b argp a ws = Some (bset_dram d' b) /\
+    forall j, 0 <= j -> sget d' j =
+      if (argp - DRAM_START <=? j) && (j <? argp - DRAM_START + 4 * Z.of_nat (length ws))
+      then nth (Z.to_nat (j - (argp - DRAM_START))) (ptrs a ws) 0
+      else if (a - DRAM_START <=? j) && (j <? a - DRAM_START + strs_len ws)
+      then nth (Z.to_nat (j - (a - DRAM_START))) (strs ws) 0
+      else sget (b_dram b) j.
+Proof.
+  induction ws as [|w t IH]; intros b argp a Hp Hpa Htop.
+  - exists (b_dram b). split; [destruct b; reflexivity|]. intros j Hj. cbn [length strs_len].
+    replace ((argp - DRAM_START <=? j) && (j <? argp - DRAM_START + 4 * Z.of_nat 0)) with false by (symmetry; apply andb_false_iff; lia).
+    replace ((a - DRAM_START <=? j) && (j <? a - DRAM_START + 0)) with false by (symmetry; apply andb_false_iff; lia).
+    reflexivity.
+  - cbn [length strs_len] in *. pose proof (strs_len_nonneg t) as Hsn.
+    cbn [put_args].
+    destruct (put_be32_spec b (argp - DRAM_START) a) as [d1 [H1 Hd1]]; [lia|lia|]. rewrite H1.
+    destruct (dram_copy_spec (w ++ [0]) (bset_dram d1 b) (a - DRAM_START)) as [d2 [H2 Hd2]]; [lia|rewrite app_length; cbn [length]; lia|].
+    rewrite H2. rewrite bset_dram_twice.
+    destruct (IH (bset_dram d2 b) (argp + 4) (a + Z.of_nat (length w) + 1)) as [d' [H3 Hd']]; [lia|lia|lia|].
+    exists d'. split; [rewrite H3; reflexivity|].
+    intros j Hj. rewrite Hd' by lia. rewrite b_dram_bset. rewrite Hd2 by lia. rewrite b_dram_bset. rewrite Hd1 by lia.
+    rewrite app_length. cbn [length].
+    set (p := argp - DRAM_START) in *. set (q := a - DRAM_START) in *.
+    replace (argp + 4 - DRAM_START) with (p + 4) by (subst p; lia).
+    replace (a + Z.of_nat (length w) + 1 - DRAM_START) with (q + Z.of_nat (length w) + 1) by (subst q; lia).
+    unfold ptrs, strs. cbn [str_addrs flat_map]. fold (ptrs (a + Z.of_nat (length w) + 1) t). fold (strs t).
+    assert (Hpq : p + 4 * Z.of_nat (S (length t)) <= q) by (subst p q; lia).
+    destruct ((p + 4 <=? j) && (j <? p + 4 + 4 * Z.of_nat (length t))) eqn:E1.
+    + apply andb_true_iff in E1. destruct E1 as [Ea Eb].
+      replace ((p <=? j) && (j <? p + 4 * Z.of_nat (S (length t)))) with true by (symmetry; apply andb_true_iff; split; lia).
+      rewrite nth_app_r by (cbn [length be32_bytes]; lia). cbn [length be32_bytes]. f_equal. lia.
+    + destruct ((q + Z.of_nat (length w) + 1 <=? j) && (j <? q + Z.of_nat (length w) + 1 + strs_len t)) eqn:E2.
+      * apply andb_true_iff in E2. destruct E2 as [Ea Eb].
+        replace ((p <=? j) && (j <? p + 4 * Z.of_nat (S (length t)))) with false by (symmetry; apply andb_false_iff; lia).
+        replace ((q <=? j) && (j <? q + (Z.of_nat (length w) + 1 + strs_len t))) with true by (symmetry; apply andb_true_iff; split; lia).
+        rewrite (nth_app_r 0 (w ++ [0]) (strs t) (j - q)). 2:{ rewrite app_length; cbn [length]; lia. } rewrite app_length. cbn [length]. f_equal. lia.
+      * destruct ((q <=? j) && (j <? q + Z.of_nat (length w + 1))) eqn:E3.
+        -- apply andb_true_iff in E3. destruct E3 as [Ea Eb].
+           replace ((p <=? j) && (j <? p + 4 * Z.of_nat (S (length t)))) with false by (symmetry; apply andb_false_iff; lia).
+           replace ((q <=? j) && (j <? q + (Z.of_nat (length w) + 1 + strs_len t))) with true by (symmetry; apply andb_true_iff; split; lia).
+           rewrite (nth_app_l 0 (w ++ [0]) (strs t) (j - q)). 2:{ rewrite app_length; cbn [length]; lia. } reflexivity.
+        -- apply andb_false_iff in E1. apply andb_false_iff in E2. apply andb_false_iff in E3.
+           destruct ((p <=? j) && (j <? p + 4)) eqn:E4.
+           ++ apply andb_true_iff in E4. destruct E4 as [Ea Eb].
+              replace ((p <=? j) && (j <? p + 4 * Z.of_nat (S (length t)))) with true by (symmetry; apply andb_true_iff; split; lia).
+              rewrite nth_app_l by (cbn [length be32_bytes]; lia). symmetry. apply nth_be32_bytes. lia.
+           ++ apply andb_false_iff in E4.
+              replace ((p <=? j) && (j <? p + 4 * Z.of_nat (S (length t)))) with false by (symmetry; apply andb_false_iff; lia).
+              replace ((q <=? j) && (j <? q + (Z.of_nat (length w) + 1 + strs_len t))) with false by (symmetry; apply andb_false_iff; lia).
+              reflexivity.
+Qed.
+
+Lemma arg_block_eq at_ ws : arg_block at_ ws = ptrs (at_ + 4 * (Z.of_nat (length ws) + 1)) ws ++ [0; 0; 0; 0] ++ strs ws.
+Proof. reflexivity. Qed.
+
+Lemma length_arg_block at_ ws : Z.of_nat (length (arg_block at_ ws)) = 4 * Z.of_nat (length ws) + 4 + strs_len ws.
+Proof. rewrite arg_block_eq. rewrite !app_length. cbn [length]. pose proof (length_ptrs ws (at_ + 4 * (Z.of_nat (length ws) + 1))). pose proof (length_strs ws). lia. Qed.
+
+Lemma arg_block_dram ws b at_ :
+  DRAM_START <= at_ -> at_ + 4 * (Z.of_nat (length ws) + 1) + strs_len ws <= DRAM_START + DRAM_SIZE ->
+  (forall j, at_ - DRAM_START + 4 * Z.of_nat (length ws) <= j < at_ - DRAM_START + 4 * Z.of_nat (length ws) + 4 -> sget (b_dram b) j = 0) ->
+  exists d', put_args b at_ (at_ + 4 * (Z.of_nat (length ws) + 1)) ws = Some (bset_dram d' b) /\
+    forall j, 0 <= j -> sget d' j =
+      if (at_ - DRAM_START <=? j) && (j <? at_ - DRAM_START + Z.of_nat (length (arg_block at_ ws)))
+      then nth (Z.to_nat (j - (at_ - DRAM_START))) (arg_block at_ ws) 0 else sget (b_dram b) j.
+Proof.
+  intros H0 Htop Hz. pose proof (strs_len_nonneg ws) as Hsn.
+  destruct (put_args_spec ws b at_ (at_ + 4 * (Z.of_nat (length ws) + 1))) as [d' [Hp Hd]]; [lia|lia|lia|].
+  exists d'. split; [exact Hp|]. intros j Hj. rewrite Hd by lia. rewrite length_arg_block. rewrite arg_block_eq.
+  set (p := at_ - DRAM_START) in *. set (n := Z.of_nat (length ws)) in *.
+  replace (at_ + 4 * (n + 1) - DRAM_START) with (p + 4 * n + 4) by (subst p; lia).
+  pose proof (length_ptrs ws (at_ + 4 * (n + 1))) as Hlp. fold n in Hlp.
+  destruct ((p <=? j) && (j <? p + 4 * n)) eqn:E1.
+  - apply andb_true_iff in E1. destruct E1 as [Ea Eb].
+    replace ((p <=? j) && (j <? p + (4 * n + 4 + strs_len ws))) with true by (symmetry; apply andb_true_iff; split; lia).
+    rewrite nth_app_l by lia. reflexivity.
+  - apply andb_false_iff in E1.
+    destruct ((p + 4 * n + 4 <=? j) && (j <? p + 4 * n + 4 + strs_len ws)) eqn:E2.
+    + apply andb_true_iff in E2. destruct E2 as [Ea Eb].
+      replace ((p <=? j) && (j <? p + (4 * n + 4 + strs_len ws))) with true by (symmetry; apply andb_true_iff; split; lia).
+      rewrite nth_app_r by lia. rewrite Hlp.
+      rewrite (nth_app_r 0 [0; 0; 0; 0] (strs ws)) by (cbn [length]; lia). cbn [length]. f_equal. lia.
+    + apply andb_false_iff in E2.
+      destruct ((p <=? j) && (j <? p + (4 * n + 4 + strs_len ws))) eqn:E3; [|reflexivity].
+      apply andb_true_iff in E3. destruct E3 as [Ea Eb].
+      rewrite Hz by lia.
+      rewrite nth_app_r by lia. rewrite Hlp.
+      rewrite (nth_app_l 0 [0; 0; 0; 0] (strs ws)) by (cbn [length]; lia).
+      assert (Hc : j - p - 4 * n = 0 \/ j - p - 4 * n = 1 \/ j - p - 4 * n = 2 \/ j - p - 4 * n = 3) by lia.
+      destruct Hc as [-> | [-> | [-> | ->]]]; reflexivity.
+Qed.
+
+(* ------------------------------------------------------------------ words, names *)
+Lemma is_ws_blank c : is_ws c = blank c.
+Proof.
+  unfold is_ws, blank.
+  destruct (c =? 32) eqn:E32; [reflexivity|]. cbn [orb].
+  destruct (c =? 9) eqn:E9; [replace (9 <=? c) with true by lia; replace (c <=? 13) with true by lia; reflexivity|].
+  destruct (c =? 10) eqn:E10; [replace (9 <=? c) with true by lia; replace (c <=? 13) with true by lia; reflexivity|].
+  destruct (c =? 11) eqn:E11; [replace (9 <=? c) with true by lia; replace (c <=? 13) with true by lia; reflexivity|].
+  destruct (c =? 12) eqn:E12; [replace (9 <=? c) with true by lia; replace (c <=? 13) with true by lia; reflexivity|].
+  destruct (c =? 13) eqn:E13; [replace (9 <=? c) with true by lia; replace (c <=? 13) with true by lia; reflexivity|].
+  cbn [orb]. destruct (9 <=? c) eqn:Ea; destruct (c <=? 13) eqn:Eb; try reflexivity. lia.
+Qed.
+
+Lemma split_ws_words : forall l cur, split_ws l cur = words_of l (rev cur).
+Proof.
+  induction l as [|c t IH]; intros cur.
+  - cbn [split_ws words_of]. destruct cur as [|x cur]; [reflexivity|].
+    cbn [rev]. rewrite app_length. cbn [length]. replace (length (rev cur) + 1 =? 0)%nat with false by (symmetry; apply Nat.eqb_neq; lia). reflexivity.
+  - cbn [split_ws words_of]. rewrite is_ws_blank. destruct (blank c).
+    + destruct cur as [|x cur]; [apply (IH [])|].
+      cbn [rev]. rewrite app_length. cbn [length]. replace (length (rev cur) + 1 =? 0)%nat with false by (symmetry; apply Nat.eqb_neq; lia).
+      f_equal. apply (IH []).
+    + rewrite IH. reflexivity.
+Qed.
+
+Lemma argv_words_model args : prog_name :: split_ws args [] = argv_words args.
+Proof. unfold argv_words. now rewrite split_ws_words. Qed.
+
+Lemma bytes_eq_eq : forall a b, bytes_eq a b = true -> a = b.
+Proof.
+  induction a as [|x a IH]; intros [|y b] H; cbn [bytes_eq] in H; try discriminate; [reflexivity|].
+  apply andb_true_iff in H. destruct H as [H1 H2]. f_equal; [lia|auto].
+Qed.
+Lemma bytes_eq_refl : forall a, bytes_eq a a = true.
+Proof. induction a as [|x a IH]; [reflexivity|]. cbn [bytes_eq]. now rewrite Z.eqb_refl, IH. Qed.
+
+Lemma parse_str_cstr : forall l s, parse_str l = Some s -> cstr l = Some s.
+Proof.
+  induction l as [|c t IH]; intros s H; cbn [parse_str cstr] in *; [discriminate|].
+  destruct (c =? 0); [exact H|]. destruct (is_graphic c); [|discriminate].
+  destruct (parse_str t) as [s'|]; [|discriminate]. injection H as <-. now rewrite (IH s' eq_refl).
+Qed.
+Lemma cstr_parse_str : forall l s, cstr l = Some s -> forallb is_graphic s = true -> parse_str l = Some s.
+Proof.
+  induction l as [|c t IH]; intros s H G; cbn [parse_str cstr] in *; [discriminate|].
+  destruct (c =? 0); [exact H|].
+  destruct (cstr t) as [s'|]; [|discriminate]. cbn [option_map] in H. injection H as <-.
+  cbn [forallb] in G. apply andb_true_iff in G. destruct G as [G1 G2]. rewrite G1. now rewrite (IH s' eq_refl G2).
+Qed.
+Lemma parse_str_graphic : forall l s, parse_str l = Some s -> forallb is_graphic s = true.
+Proof.
+  induction l as [|c t IH]; intros s H; cbn [parse_str] in *; [discriminate|].
+  destruct (c =? 0); [injection H as <-; reflexivity|]. destruct (is_graphic c) eqn:G; [|discriminate].
+  destruct (parse_str t) as [s'|]; [|discriminate]. injection H as <-. cbn [forallb]. now rewrite G, (IH s' eq_refl).
+Qed.
+
+(* the test "is this the name nm" gives the same answer through either string reader when nm is graphic *)
+Lemma name_test_agrees l nm : forallb is_graphic nm = true ->
+  match parse_str l with Some s => bytes_eq s nm | None => false end =
+  match cstr l with Some s => bytes_eq s nm | None => false end.
+Proof.
+  intros G. destruct (parse_str l) as [s|] eqn:E.
+  - now rewrite (parse_str_cstr l s E).
+  - destruct (cstr l) as [s|] eqn:E2; [|reflexivity].
+    destruct (bytes_eq s nm) eqn:E3; [|reflexivity].
+    apply bytes_eq_eq in E3. subst s. rewrite (cstr_parse_str l nm E2 G) in E. discriminate.
+Qed.
+
+(* ------------------------------------------------------------------ bytes are non-negative *)
+Definition bytes_ok (f : list Z) : Prop := forallb (fun b => (0 <=? b) && (b <=? 255)) f = true.
+Lemma at8_range f i : bytes_ok f -> 0 <= at8 f i <= 255.
+Proof.
+  intros H. unfold at8. destruct (nth_in_or_default (Z.to_nat i) f 0) as [Hin | ->]; [|lia].
+  unfold bytes_ok in H. rewrite forallb_forall in H. specialize (H _ Hin). lia.
+Qed.
+Lemma at16_range f i : bytes_ok f -> 0 <= at16 f i <= 65535.
+Proof. intros H. unfold at16. pose proof (at8_range f i H). pose proof (at8_range f (i + 1) H). lia. Qed.
+Lemma at32_range f i : bytes_ok f -> 0 <= at32 f i <= 4294967295.
+Proof. intros H. unfold at32. pose proof (at16_range f i H). pose proof (at16_range f (i + 2) H). lia. Qed.
+
+Lemma nth_error_map_zrange_from {A} (g : Z -> A) : forall n s k, (k < n)%nat ->
+  nth_error (map g (zrange_from s n)) k = Some (g (s + Z.of_nat k)).
+Proof.
+  induction n as [|n IH]; intros s k H; [lia|]. cbn [zrange_from map].
+  destruct k as [|k]; [cbn [nth_error]; do 2 f_equal; lia|].
+  cbn [nth_error]. rewrite IH by lia. do 2 f_equal. lia.
+Qed.
+Lemma nth_error_ref_shdrs f k : 0 <= k < e_shnum (ref_ehdr f) ->
+  nth_error (ref_shdrs f) (Z.to_nat k) = Some (ref_shdr f k).
+Proof.
+  intros H. unfold ref_shdrs, zrange. rewrite nth_error_map_zrange_from by lia. do 2 f_equal. lia.
+Qed.
+
+Lemma skipn_add {A} : forall (l : list A) a b, skipn a (skipn b l) = skipn (b + a) l.
+Proof.
+  induction l as [|x l IH]; intros a b; [now rewrite !skipn_nil|].
+  destruct b as [|b]; [reflexivity|]. cbn [skipn plus]. apply IH.
+Qed.
+Lemma skz_skz f a b : 0 <= a -> 0 <= b -> skipn (Z.to_nat a) (skz f b) = skz f (b + a).
+Proof. intros Ha Hb. unfold skz. rewrite skipn_add. f_equal. lia. Qed.
+Lemma length_skz f b : 0 <= b <= flen f -> Z.of_nat (length (skz f b)) = flen f - b.
+Proof. intros H. unfold skz, flen in *. rewrite skipn_length. lia. Qed.
+
+Lemma slice_skz f b a : 0 <= b -> 0 <= a -> b + a <= flen f -> slice_from (skz f b) a = Some (skz f (b + a)).
+Proof.
+  intros Hb Ha Hl. unfold slice_from. rewrite length_skz by lia.
+  replace ((0 <=? a) && (a <=? flen f - b)) with true by (symmetry; apply andb_true_iff; split; lia).
+  now rewrite skz_skz.
+Qed.
+
+Lemma cstr_at_some f off s : cstr_at f off = Some s -> 0 <= off <= flen f /\ cstr (skz f off) = Some s.
+Proof.
+  unfold cstr_at. destruct ((0 <=? off) && (off <=? flen f)) eqn:E; [|discriminate].
+  apply andb_true_iff in E. intros H. split; [lia|exact H].
+Qed.
+
+Definition name_ok (f : list Z) (stroff : Z) (sh : shdr) : Prop :=
+  0 <= sh_name sh /\ exists s, cstr_at f (stroff + sh_name sh) = Some s /\ forallb is_graphic s = true.
+
+Lemma section_names_spec f stroff : 0 <= stroff -> forall shs, Forall (name_ok f stroff) shs ->
+  exists names, section_names (skz f stroff) shs = Some names /\
+    Forall2 (fun nm sh => cstr_at f (stroff + sh_name sh) = Some nm) names shs.
+Proof.
+  intros H0. induction shs as [|sh t IH]; intros Hall.
+  - exists []. split; [reflexivity|constructor].
+  - inversion Hall as [|? ? [Hn [s [Hs Hg]]] Ht]; subst.
+    destruct (IH Ht) as [names [Hns Hf2]].
+    destruct (cstr_at_some _ _ _ Hs) as [Hb Hc].
+    cbn [section_names]. rewrite slice_skz by lia. rewrite (cstr_parse_str _ _ Hc Hg). rewrite Hns.
+    exists (s :: names). split; [reflexivity|]. constructor; assumption.
+Qed.
+
+(* ------------------------------------------------------------------ C12: ___exit through the symbol table *)
+Definition is_exit_sym (f : list Z) (stroff : Z) (sy : sym) : bool :=
+  match cstr_at f (stroff + st_name sy) with Some s => bytes_eq s n_exit | None => false end.
+
+Lemma sym_fold f stroff : 0 <= stroff -> forall syms st,
+  Forall (fun sy => 0 <= st_name sy /\ stroff + st_name sy <= flen f) syms ->
+  fold_left (sym_step (skz f stroff)) syms (Some st) =
+    Some (mkL (l_bus st) (l_er st)
+              (match find (is_exit_sym f stroff) (rev syms) with
+               | Some sy => (st_value sy + PROGRAM_START_ADDR) mod 4294967296
+               | None => l_exit st end)).
+Proof.
+  intros H0. induction syms as [|sy t IH]; intros st Hall.
+  - destruct st; reflexivity.
+  - inversion Hall as [|? ? [Hn Hb] Ht]; subst. cbn [fold_left rev]. rewrite find_app.
+    unfold sym_step at 2. rewrite slice_skz by lia.
+    assert (Ht' : is_exit_sym f stroff sy = match parse_str (skz f (stroff + st_name sy)) with Some s => bytes_eq s n_exit | None => false end).
+    { unfold is_exit_sym, cstr_at.
+      replace ((0 <=? stroff + st_name sy) && (stroff + st_name sy <=? flen f)) with true by (symmetry; apply andb_true_iff; split; lia).
+      symmetry. apply name_test_agrees. reflexivity. }
+    destruct (parse_str (skz f (stroff + st_name sy))) as [s|] eqn:Ep.
+    + destruct (bytes_eq s n_exit) eqn:Eb.
+      * rewrite IH by assumption. cbn [l_bus l_er l_exit find]. rewrite Ht'.
+        destruct (find (is_exit_sym f stroff) (rev t)); reflexivity.
+      * rewrite IH by assumption. cbn [find]. rewrite Ht'.
+        destruct (find (is_exit_sym f stroff) (rev t)); reflexivity.
+    + rewrite IH by assumption. cbn [find]. rewrite Ht'.
+      destruct (find (is_exit_sym f stroff) (rev t)); reflexivity.
+Qed.
+
+(* ------------------------------------------------------------------ the end of the image *)
+Lemma image_end_fold phs : forall a, 0 <= a ->
+  fold_left (fun acc ph => if p_type ph =? 1 then Z.max acc (p_memsz ph + p_paddr ph) else acc) phs a = Z.max a (img_end phs).
+Proof.
+  induction phs as [|ph t IH]; intros a Ha; cbn [fold_left img_end fold_right].
+  - lia.
+  - fold (img_end t). unfold is_load. destruct (p_type ph =? 1); rewrite IH by lia; lia.
+Qed.
+Lemma img_end_nonneg phs : 0 <= img_end phs.
+Proof. induction phs as [|ph t IH]; cbn [img_end fold_right]; [lia|]. fold (img_end t). destruct (is_load ph); lia. Qed.
+Lemma image_end_img_end phs : image_end phs = img_end phs.
+Proof. unfold image_end. rewrite image_end_fold by lia. pose proof (img_end_nonneg phs). lia. Qed.
+
+Definition load_ok (f : list Z) (ph : phdr) : Prop :=
+  is_load ph = true ->
+  p_offset ph + p_filesz ph <= flen f /\ p_filesz ph <= p_memsz ph /\ p_vaddr ph + p_memsz ph <= DRAM_SIZE - OFF /\ p_paddr ph = p_vaddr ph.
+
+Lemma img_end_ge phs ph : In ph phs -> is_load ph = true -> p_paddr ph + p_memsz ph <= img_end phs.
+Proof.
+  induction phs as [|q t IH]; intros Hin Hl; [contradiction|]. cbn [img_end fold_right]. fold (img_end t).
+  destruct Hin as [->|Hin]; [rewrite Hl; lia|]. specialize (IH Hin Hl). destruct (is_load q); lia.
+Qed.
+Lemma img_end_le_top f phs : Forall (load_ok f) phs -> img_end phs <= DRAM_SIZE - OFF.
+Proof.
+  induction phs as [|q t IH]; intros Hall; cbn [img_end fold_right]; [unfold DRAM_SIZE, OFF, PROGRAM_START_ADDR, DRAM_START; lia|].
+  fold (img_end t). inversion Hall as [|? ? Hq Ht]; subst. specialize (IH Ht).
+  destruct (is_load q) eqn:E; [|exact IH]. destruct (Hq E) as (_ & _ & H3 & H4). lia.
+Qed.
+
+Lemma file_byte_above f phs a : Forall (load_ok f) phs -> img_end phs <= a -> file_byte f phs a = 0.
+Proof.
+  intros Hall Ha. unfold file_byte. destruct (find (fun ph => covers ph a) (rev phs)) as [ph|] eqn:E; [|reflexivity].
+  apply find_some in E. destruct E as [Hin Hc]. apply in_rev in Hin.
+  unfold covers in Hc. apply andb_true_iff in Hc. destruct Hc as [Hc Hc3]. apply andb_true_iff in Hc. destruct Hc as [Hc1 Hc2].
+  rewrite Forall_forall in Hall. destruct (Hall _ Hin Hc1) as (_ & H2 & _ & H4).
+  pose proof (img_end_ge phs ph Hin Hc1). lia.
+Qed.
+
+Lemma file_byte_below f phs a : Forall (fun ph => 0 <= p_vaddr ph) phs -> a < 0 -> file_byte f phs a = 0.
+Proof.
+  intros Hall Ha. unfold file_byte. destruct (find (fun ph => covers ph a) (rev phs)) as [ph|] eqn:E; [|reflexivity].
+  apply find_some in E. destruct E as [Hin Hc]. apply in_rev in Hin. rewrite Forall_forall in Hall. specialize (Hall _ Hin).
+  unfold covers in Hc. apply andb_true_iff in Hc. destruct Hc as [Hc Hc3]. apply andb_true_iff in Hc. destruct Hc as [Hc1 Hc2]. lia.
+Qed.
+
+(* ------------------------------------------------------------------ uniqueness of the special sections *)
+Lemma filter_nil_existsb {A} (p : A -> bool) l : filter p l = [] -> existsb p l = false.
+Proof.
+  induction l as [|x l IH]; [reflexivity|]. cbn [filter existsb]. destruct (p x); [discriminate|]. exact IH.
+Qed.
+Lemma existsb_false_find {A} (p : A -> bool) l : existsb p l = false -> find p l = None.
+Proof.
+  induction l as [|x l IH]; [reflexivity|]. cbn [find existsb]. destruct (p x); [discriminate|]. exact IH.
+Qed.
+Lemma unique_named {A} (p : A -> bool) P x rest :
+  (length (filter p (P ++ x :: rest)) <= 1)%nat -> p x = true ->
+  existsb p P = false /\ find p (P ++ x :: rest) = Some x.
+Proof.
+  intros Hlen Hx. rewrite filter_app in Hlen. cbn [filter] in Hlen. rewrite Hx in Hlen.
+  rewrite app_length in Hlen. cbn [length] in Hlen.
+  assert (Hn : filter p P = []) by (destruct (filter p P); [reflexivity|cbn [length] in Hlen; lia]).
+  pose proof (filter_nil_existsb p P Hn) as He. split; [exact He|].
+  rewrite find_app. rewrite (existsb_false_find p P He). cbn [find]. now rewrite Hx.
+Qed.
+Lemma existsb_app_one {A} (p : A -> bool) P x : existsb p (P ++ [x]) = existsb p P || p x.
+Proof. rewrite existsb_app. cbn [existsb]. now rewrite orb_false_r. Qed.
+Lemma find_none_flag {A} (p : A -> bool) l : find p l = None -> existsb p l = false.
+Proof.
+  induction l as [|x l IH]; [reflexivity|]. cbn [find existsb]. destruct (p x); [discriminate|]. exact IH.
+Qed.
+Lemma find_some_flag {A} (p : A -> bool) l x : find p l = Some x -> existsb p l = true.
+Proof.
+  induction l as [|y l IH]; [discriminate|]. cbn [find existsb]. destruct (p y); [reflexivity|]. exact IH.
+Qed.
